@@ -43,6 +43,7 @@ type Cache struct {
 	devices   map[string]*Device
 	errors    map[string][]error
 	dirErrors map[string]error
+	rescan    bool // the last scan ran out of file descriptors
 
 	autoRefresh bool
 	watch       *watch
@@ -177,6 +178,7 @@ func (c *Cache) refresh() error {
 		return true
 	}
 
+	c.rescan = false
 	_ = scanSpecDirs(c.specDirs, func(path string, priority int, spec *Spec, err error) error {
 		path = filepath.Clean(path)
 		if c.unwatchedDir(filepath.Dir(path)) {
@@ -184,6 +186,11 @@ func (c *Cache) refresh() error {
 		}
 		if err != nil {
 			collectError(fmt.Errorf("failed to load CDI Spec %w", err), path)
+			if errors.Is(err, syscall.EMFILE) || errors.Is(err, syscall.ENFILE) {
+				// We ran out of file descriptors. What we could not read
+				// will not tell us when we can: scan again on next use.
+				c.rescan = true
+			}
 			return nil
 		}
 
@@ -239,7 +246,7 @@ func (c *Cache) refreshIfRequired(force bool) (bool, error) {
 	// We need to refresh if
 	// - it's forced by an explicit call to Refresh() in manual mode
 	// - a missing Spec dir appears (added to watch) in auto-refresh mode
-	if force || (c.autoRefresh && c.watch.update(c.dirErrors)) {
+	if force || (c.autoRefresh && (c.watch.update(c.dirErrors) || c.rescan)) {
 		return true, c.refresh()
 	}
 	return false, nil
